@@ -26,6 +26,7 @@ def family():
                 yield label, prog, meta
 
 
+    yield from F.fam_guarded_start()
     for label, prog, meta in F.fam_markers_guarded():
         yield label, prog, dict(marks=True)
     for label, prog, meta in F.fam_markers_refused_aux():
